@@ -847,7 +847,32 @@ pub fn c03(ctx: &Ctx, rep: &mut Report) {
         let mut rng = Rng::derive(&[ctx.seed, ctx.shard, idx, 3]);
         let fmt = if idx % 2 == 0 { Fmt::Fasta } else { Fmt::Fastq };
         // a quarter of the inputs come from the deterministic small corpus
-        let (bytes, family) = if idx % 4 >= 2 {
+        // growth by thousands of bytes with every way of delivering the bytes: one record longer than a
+        // capacity of 4096 / 8192 / 65536 in front of a few small ones
+        let grow_big = !ctx.miri && (idx % 60 == 8 || idx % 60 == 9);
+        let big_cap = *rng.pick(&[4096usize, 4096, 8192, 65_536]);
+        let (bytes, family) = if grow_big {
+            let mut b = vec![];
+            let l = big_cap + 1 + rng.below(2 * big_cap);
+            for i in 0..4 {
+                let n = if i == 1 { l } else { 5 + rng.below(40) };
+                match fmt {
+                    Fmt::Fasta => {
+                        b.extend_from_slice(format!(">r{}_{}\n", ctx.shard, i).as_bytes());
+                        b.extend((0..n).map(|k| b"ACGT"[k % 4]));
+                        b.push(b'\n');
+                    }
+                    Fmt::Fastq => {
+                        b.extend_from_slice(format!("@r{}_{}\n", ctx.shard, i).as_bytes());
+                        b.extend((0..n).map(|k| b"ACGT"[k % 4]));
+                        b.extend_from_slice(b"\n+\n");
+                        b.extend((0..n).map(|_| b'I'));
+                        b.push(b'\n');
+                    }
+                }
+            }
+            (b, "grow-big")
+        } else if idx % 4 >= 2 {
             let l = if ctx.tier_thorough { 9 } else { 8 };
             let g = rng.next() % gen::small_count(l);
             (gen::small_string(fmt, g), "small")
@@ -861,6 +886,26 @@ pub fn c03(ctx: &Ctx, rep: &mut Report) {
         let mut cfgs = c03_configs(&mut rng, input.len(), &extents, ncfg);
         for c in cfgs.iter_mut() {
             gen::tame(c, input.len());
+        }
+        if grow_big {
+            cfgs.clear();
+            for chunking in [
+                Chunking::Whole,
+                Chunking::Short(1),
+                Chunking::Short(2),
+                Chunking::Fixed(4096),
+                Chunking::Fixed(4095),
+                Chunking::Seeded(rng.next(), 5000),
+            ] {
+                for policy in [PolSpec::Std, PolSpec::DoubleUntil(1 << 20), PolSpec::Times(3), PolSpec::JumpTo(4 * big_cap + 7)] {
+                    cfgs.push(Config {
+                        cap: big_cap,
+                        policy,
+                        chunking: chunking.clone(),
+                        interrupts: Interrupts::None,
+                    });
+                }
+            }
         }
         if input.len() > 200_000 {
             cfgs.truncate(5);
@@ -1255,6 +1300,15 @@ pub fn c17(ctx: &Ctx, rep: &mut Report) {
                     }
                     abs.recs[at].head = h;
                     rep.count("defects_behind_ids_of_255_to_70000_bytes");
+                }
+                if rng.chance(1, 30) {
+                    // a carriage return that is content of the header, not part of a terminator: the id is
+                    // everything up to the first space, CR included
+                    let shapes: [&[u8]; 6] = [b"a\r b", b"\r x", b"a\rb c", b"a \r d", b"\r\r z", b"q\r"];
+                    let mut h: Vec<u8> = format!("r{}_{}", ctx.shard, at).into_bytes();
+                    h.extend_from_slice(shapes[rng.below(5)]);
+                    abs.recs[at].head = h;
+                    rep.count("defects_behind_headers_with_inner_cr");
                 }
                 plant_fastq(&mut rng, &abs, &ro, at)
             }
